@@ -244,6 +244,24 @@ Definition reward (o : ostate) (cl : list (Z * Z)) (miss : list Z) : ostate :=
     let '(pool, cred) := fold_left (reward_denom ws wsum) (o_pool o) (o_pool o, o_credited o) in
     set_credited (set_pool o pool) cred.
 
+(* who is credited what (Dec amounts): per rewarded validator and denomination, the validator's own
+   outstanding reward and its pro-bono contribution to the community pool.
+   rewardCoins = trunc(pool * (w / wsum)); contribution = rewardCoins.MulDecTruncate(rate) = rewardCoins * rate
+   exactly; finalReward = rewardCoins - contribution.  A validator whose rewardCoins are all zero is skipped. *)
+Definition rate_of (o : ostate) (a : Z) : Z :=
+  match find_val (o_vals o) a with Some v => v_rate v | None => 0 end.
+
+Definition reward_lines (o : ostate) (cl : list (Z * Z)) (miss : list Z) : list (Z * bytes * Z * Z) :=
+  let ws := winners cl miss in
+  let wsum := sumZ (map snd ws) in
+  if wsum =? 0 then []
+  else concat (map (fun w : Z * Z =>
+         concat (map (fun c : bytes * Z =>
+           let rew := reward_of (snd c) wsum (snd w) in
+           if rew =? 0 then []
+           else [(fst w, fst c, dec_of_int rew - dec_mul_trunc (dec_of_int rew) (rate_of o (fst w)),
+                  dec_mul_trunc (dec_of_int rew) (rate_of o (fst w)))]) (o_pool o))) ws).
+
 (* SlashValidatorsAndResetMissCount *)
 Definition slash_amount (o : ostate) (v : validator) : Z :=
   Z.min (v_tokens v)
@@ -282,6 +300,18 @@ Definition oracle_end_block (o : ostate) (s : sstate) (h : Z) : ostate * option 
     let o4 := set_votes (set_prevotes o3 []) [] in
     let o5 := if window_closing h p (op_window (o_params o)) then close_window o4 else o4 in
     (o5, if rstart h p =? 0 then None else Some (res, rstart h p)).
+
+(* the credit lines of the end-blocker at height h (empty outside a tally block) *)
+Definition oracle_end_lines (o : ostate) (s : sstate) (h : Z) : list (Z * bytes * Z * Z) :=
+  let p := op_period (o_params o) in
+  if negb (is_tally h p) then []
+  else
+    let o1 := set_round o (Some (next_round o s h)) in
+    let cl := claims o1 in
+    let bs := all_ballots o1 in
+    let res := tally_results cl bs (threshold_votes o1) in
+    let ms := missers cl bs res in
+    reward_lines o1 cl ms.
 
 Inductive oenv :=
 | EnvJail (v : Z)
